@@ -295,6 +295,15 @@ class GetAlignedAxes(Contract):
             for ax in result:
                 v = ax.values
                 yield "sorted-ascending[%s]" % ax.name, S.forall2(0, S.n(v), lambda i, j, v=v: S.at(v, i) <= S.at(v, j))
+        if not case["sort"]:
+            # a dimension exactly one input has: the common axis carries that input's labels, in its order
+            for ax in result:
+                owners = [t for t, ds in enumerate(cfg) if ax.name in ds]
+                if len(owners) == 1:
+                    old = env["labels"][owners[0]][ax.name][1]
+                    v = ax.values
+                    yield "sole-owner[%s]-keeps-its-labels" % ax.name, S.land(S.n(v) == S.n(old), S.forall(0, S.n(old), lambda i, v=v, old=old: S.implies(
+                        i < S.n(v), lambda: S.at(v, i) == S.at(old, i))))
         for t, ds in enumerate(cfg):
             arr = env["arrays"][t]
             for k, d in enumerate(ds):
@@ -420,6 +429,14 @@ def _gaa_post(self, S, case, env, result):
         for ax in result:
             v = ax.values
             yield "sorted-ascending[%s]" % ax.name, S.forall2(0, S.n(v), lambda i, j, v=v: S.at(v, i) <= S.at(v, j))
+    else:
+        for ax in result:
+            owners = [t for t, o in enumerate(env["arrays"]) if ax.name in o.dims]
+            if len(owners) == 1 and env["axis"] is None:
+                old = env["labels"][owners[0]][ax.name][1]
+                v = ax.values
+                yield "sole-owner[%s]-keeps-its-labels" % ax.name, S.land(S.n(v) == S.n(old), S.forall(0, S.n(old), lambda i, v=v, old=old: S.implies(
+                    i < S.n(v), lambda: S.at(v, i) == S.at(old, i))))
 
 
 GetAlignedAxes._post_checked = GetAlignedAxes.post
